@@ -221,6 +221,7 @@ var mutants = []Mutant{
 	{"C09", "dot-removal-behind-a-parse", "internal/urlkeyer.go", [][2]string{{"\tbase := &url.URL{Scheme: u.Scheme, Host: u.Host}\n\tnormalized := base.ResolveReference(&ref)\n", "\tnormalized := &ref\n\tif base, err := url.Parse(u.Scheme + \"://\" + u.Host); err == nil {\n\t\tnormalized = base.ResolveReference(&ref)\n\t}\n"}}, "C09.10", "D78"},
 	{"C12", "plus-sign-accepted", "internal/ccdirectives.go", [][2]string{{"if len(r) == 0 || r[0] < '0' || r[0] > '9' {", "if len(r) == 0 || r[0] == '-' {"}}, "C12.18", "D80"},
 	{"C10", "meta-times-unchecked", "internal/entry.go", [][2]string{{"\tif resp.ReceivedAt, timeErr = time.Parse(time.RFC3339Nano, string(parts[2])); timeErr != nil {\n\t\treturn nil, fmt.Errorf(\"%w: response time: %w\", errInvalidMetaLine, timeErr)\n\t}\n", "\tresp.ReceivedAt, _ = time.Parse(time.RFC3339Nano, string(parts[2]))\n"}}, "C10.22", "D81"},
+	{"C01", "age-capped-at-2-31", "internal/freshness.go", [][2]string{{"\t\tageVal = v\n", "\t\tageVal = min(v, (1<<31)*time.Second)\n"}}, "C01.23", "D82"},
 }
 
 // MutantResult is one row of the kill matrix.
